@@ -56,3 +56,18 @@ Example C01_nonvacuous :
   let c := mkClient (map N.of_nat (seq 0 20)) 0 [RSize 3; RSize 1; RSize 9] [] [] false false in
   nofault c /\ fst (ahead (init_filt c) 12) = Win (map N.of_nat (seq 0 12)).
 Proof. split; [repeat constructor|vm_compute; reflexivity]. Qed.
+
+(* ---- multi-volume input (IO/MultiNodeDefs.v) ---- *)
+From LA Require IO.MultiNodeDefs IO.MultiNodeProofs.
+Module MultiNode.
+Import MultiNodeDefs MultiNodeProofs.
+(* For EVERY set of data nodes, block size and script of reads and seeks - including seeks that are
+   refused half-way through their walk over the nodes - the block the filter still holds was handed out
+   by the node that is currently open: the buffer it lives in has not been released by a close.
+   (False of the pinned code: client_switch_proxy kept the old node's block, and a seek that switched
+   nodes and then failed left it in the filter - heap-use-after-free; repaired by a "fix:" commit.) *)
+Theorem C01_multinode_block_owner_open : forall ns bs ops,
+  Own (fst (mrun (mopen ns bs) ops)).
+Proof. intros ns bs ops. apply mrun_Own, mopen_Own. Qed.
+Print Assumptions C01_multinode_block_owner_open.
+End MultiNode.
